@@ -11,6 +11,8 @@ import (
 	"strings"
 	"testing"
 	"unicode/utf8"
+
+	"github.com/thushan/olla/verifharness/ev"
 )
 
 func seedStreams() [][]byte {
@@ -40,6 +42,9 @@ func seedStreams() [][]byte {
 // and on a nil return message_start is first and message_stop last, every event
 // JSON of its own type).
 func FuzzStreamBytes(f *testing.F) {
+	if ev.IsReplay() {
+		f.Skip("replay run")
+	}
 	for i, s := range seedStreams() {
 		f.Add(s, uint16([]int{0, 1, 7, 4096}[i%4]), i%2 == 0)
 	}
@@ -65,6 +70,9 @@ func FuzzStreamBytes(f *testing.F) {
 // reason, usage, buffered differential). Inputs outside the domain (invalid
 // UTF-8, arguments that are not a JSON object, empty id/name) are skipped.
 func FuzzCompletion(f *testing.F) {
+	if ev.IsReplay() {
+		f.Skip("replay run")
+	}
 	f.Add("Hello \U0001F600\r\nworld", "call_1", "get_weather", `{"city":"Z\u00fcrich","n":[1,2,{"a":null}]}`, uint8(1), uint8(3), uint16(1), true, true, uint8(0))
 	f.Add("", "call_2", "f", `{}`, uint8(0), uint8(0), uint16(0), false, false, uint8(1))
 	f.Add("data: [DONE]\n\n", "toolu_01A", "Bash", "{\n  \"command\": \"ls -la | grep \\\"x\\\"\"\n}", uint8(2), uint8(1), uint16(13), false, true, uint8(2))
